@@ -506,7 +506,7 @@ func reachWithoutMarker(fn *ssa.Function, target ssa.Instruction, marker func(ss
 				break
 			}
 		}
-		if !blocked {
+		if !blocked && !blockNeverReturns(b) {
 			work = append(work, b.Succs...)
 		}
 	}
@@ -666,7 +666,7 @@ func reachWithoutMarkerAvoiding(fn *ssa.Function, target ssa.Instruction, marker
 				break
 			}
 		}
-		if blocked {
+		if blocked || blockNeverReturns(b) {
 			continue
 		}
 		var ifi *ssa.If
